@@ -229,7 +229,8 @@ Definition wf_native (g : gval) : Prop :=
   | _ => True
   end.
 
-(* ---- the regions of the known findings, and silent wrap-arounds outside any realistic range ------------ *)
+(* ---- what remains excluded: the one finding that is kept (deliberate reinterpretation of unsigned
+   values), and the int64 wrap-around of millisecond timestamps outside any realistic range ---------------- *)
 Definition col_signed_max (id : Z) : option Z :=
   if id =? Id.tinyint then Some 127 else if id =? Id.smallint then Some 32767
   else if id =? Id.int then Some 2147483647
@@ -238,19 +239,10 @@ Definition col_signed_max (id : Z) : option Z :=
 Definition clean_native (id : Z) (g : gval) : Prop :=
   match g with
   | GInt k named z =>
-      (* F-C02-1: unsigned source above the column's signed maximum *)
+      (* F-C02-1 (kept): unsigned source above the column's signed maximum *)
       (forall mx, col_signed_max id = Some mx -> is_signed k = false -> z <= mx)
-      (* F-C12-2: defined int64 type bound to a duration column *)
-      /\ (id = Id.duration -> named = false)
-      (* F-C12-3: instant before 1970 that is not at midnight; and day numbers outside 32 bits *)
-      /\ (id = Id.date -> (0 <= z \/ z mod ms_per_day = 0) /\ fits_signed 4 (z / ms_per_day) = true)
-  | GBig z =>
-      (* F-C12-1: big.Int bound to bigint / counter *)
-      (id = Id.bigint \/ id = Id.counter -> size2c z = 8%nat)
   | GTime sec nsec =>
       (* the millisecond timestamp is computed in int64: instants more than 292 million years away wrap *)
       (id = Id.timestamp \/ id = Id.date -> - 2 ^ 63 <= sec * 1000 /\ millis_of sec nsec < 2 ^ 63)
-      /\ (id = Id.date -> (0 <= millis_of sec nsec \/ millis_of sec nsec mod ms_per_day = 0)
-                          /\ fits_signed 4 (millis_of sec nsec / ms_per_day) = true)
   | _ => True
   end.
